@@ -764,6 +764,10 @@ impl<NumericTypes: EvalexprNumericTypes> Node<NumericTypes> {
                 }
             } else {
                 // println!("Inserting as specified");
+                // A binary operator can only obtain its left operand by rotation.
+                if node.operator().max_argument_amount() == Some(2) {
+                    return Err(EvalexprError::wrong_operator_argument_amount(0, 2));
+                }
                 self.children.push(node);
                 Ok(())
             }
